@@ -1300,6 +1300,19 @@ func runContractV1(s *Session) {
 		}
 		what := fmt.Sprintf("rhp/v2 formation (renter payout %v, host collateral %v, contract price %v)", renterPayout, hostCollateral, hs.ContractPrice)
 		taxOK(what, fc)
+		// the same formation for other amounts (the tax comes in steps of 10000
+		// hastings: which side of a step the payout lands on depends on the last
+		// digits of what is to be paid out)
+		for j := 1; j <= 48 && len(e.viols) == 0; j++ {
+			rp := renterPayout.Add(types.NewCurrency64(uint64(j) * 7919 * 1000003 % 999999937))
+			var fcj types.FileContract
+			if guardPanic(func() {
+				fcj = rhp2.PrepareContractFormation(renterSK.PublicKey(), hostSK.PublicKey(), rp, hostCollateral, end, hs, rAddr)
+			}) != "" {
+				break
+			}
+			taxOK(fmt.Sprintf("rhp/v2 formation (renter payout %v, host collateral %v, contract price %v)", rp, hostCollateral, hs.ContractPrice), fcj)
+		}
 		if fc.UnlockHash != contractUC.UnlockHash() {
 			bad("v1-unlock-hash", "%s: contract unlock hash is not the 2-of-2 of renter and host key", what)
 		}
